@@ -142,15 +142,29 @@ def run(chk):
     gtf = ix.func('utils._get_timestamp_format')
     lo = hi = sub = None
     default = None
+
+    def len_of_value(e):
+        """e is len(value) -> 0, len(value[c:]) -> c, else None"""
+        if isinstance(e, ast.Call) and norm(e.func) == 'len' and len(e.args) == 1:
+            a = e.args[0]
+            if norm(a) == 'value':
+                return 0
+            if isinstance(a, ast.Subscript) and norm(a.value) == 'value' and isinstance(a.slice, ast.Slice) and \
+                    a.slice.upper is None and a.slice.step is None and isinstance(a.slice.lower, ast.Constant):
+                return a.slice.lower.value
+        return None
     for n in own_nodes(gtf.node):
-        if isinstance(n, ast.Compare) and len(n.ops) == 2 and norm(n.comparators[0]) == 'len(value)' and \
+        if isinstance(n, ast.Compare) and len(n.ops) == 2 and len_of_value(n.comparators[0]) is not None and \
                 isinstance(n.left, ast.Constant) and isinstance(n.comparators[1], ast.Constant) and \
                 isinstance(n.ops[0], ast.LtE) and isinstance(n.ops[1], ast.LtE):
-            lo, hi = n.left.value, n.comparators[1].value
+            off = len_of_value(n.comparators[0])
+            lo, hi = n.left.value + off, n.comparators[1].value + off       # bounds on len(value)
         if isinstance(n, ast.Assign) and norm(n.targets[0]) == 'microsec':
             if isinstance(n.value, ast.BinOp) and isinstance(n.value.op, ast.Sub) and norm(n.value.left) == 'len(value)' and \
                     isinstance(n.value.right, ast.Constant):
                 sub = n.value.right.value
+            elif len_of_value(n.value) is not None:
+                sub = len_of_value(n.value)
             elif isinstance(n.value, ast.Constant):
                 default = n.value.value
     if None in (lo, hi, sub, default):
